@@ -58,6 +58,8 @@ def c02(ctx, v):
 def c03(ctx, v):
     T.r_tables(ctx, v, want=("R-GROW",))
     T.r_repair(ctx, v)
+    if S:
+        S.r_prim(ctx, v)
     r_absent(ctx, v)
     M.r_once(ctx, v)  # the pop_*_if family removes exactly the element its predicate saw
     M.r_assign(ctx, v)
@@ -106,6 +108,8 @@ def c04(ctx, v):
     fixture_once(ctx, ["R-UNSAFEKINDS"])
     T.r_tables(ctx, v, want=("R-GROW",))
     T.r_repair(ctx, v)
+    if S:
+        S.r_prim(ctx, v)
     D.r_writers(ctx, v)
     D.r_unsafekinds(ctx, v)
     D.r_reset(ctx, v)
